@@ -137,6 +137,9 @@ type Exec struct {
 // MaxDump is the largest goroutine dump seen (diagnostics).
 var MaxDump int
 
+// sharedStackBuf is reused by successive executions (and grows when needed).
+var sharedStackBuf []byte
+
 // cur is the execution in progress (one at a time per process).
 var cur *Exec
 
@@ -180,7 +183,10 @@ func curGoid() int64 {
 func NewExec(prefix []int, prefixN []int) *Exec {
 	x := &Exec{prefix: prefix, prefixN: prefixN, Horizon: 3000, nextSpawnLID: 100, exited: make(chan struct{}, maxThreads)}
 	x.baseGoid = maxGoid()
-	x.stackBuf = make([]byte, 1<<20)
+	if sharedStackBuf == nil {
+		sharedStackBuf = make([]byte, 1<<20)
+	}
+	x.stackBuf = sharedStackBuf
 	x.active = true
 	cur = x
 	return x
@@ -534,6 +540,12 @@ func (x *Exec) waitQuiescent() bool {
 		runtime.Gosched()
 		n := runtime.Stack(x.stackBuf, true)
 		x.FullDumps++
+		for n >= len(x.stackBuf)-1 && len(x.stackBuf) < 256<<20 {
+			// many (leaked, blocked) goroutines: grow the buffer rather than miss the newest ones
+			x.stackBuf = make([]byte, 2*len(x.stackBuf))
+			sharedStackBuf = x.stackBuf
+			n = runtime.Stack(x.stackBuf, true)
+		}
 		if n >= len(x.stackBuf)-1 {
 			panic("sched: goroutine dump truncated (too many live goroutines)")
 		}
